@@ -56,7 +56,7 @@ import sys
 sel = sys.argv[1:] or list(checks)
 m = {
  "version": 1,
- "setup_cmd": "cd /verif/sim && CARGO_NET_OFFLINE=true cargo build --offline --profile simdbg && CARGO_NET_OFFLINE=true cargo build --offline --profile simrel && (CARGO_NET_OFFLINE=true cargo +nightly miri run --offline --release --quiet --target-dir /verif/target/miri -- miri-noop || true) && for t in s390x-unknown-linux-gnu i686-unknown-linux-gnu; do (CARGO_NET_OFFLINE=true cargo +nightly miri run --offline --release --quiet --target $t --target-dir /verif/target/miri -- miri-noop || true); done",
+ "setup_cmd": "cd /verif/sim && CARGO_NET_OFFLINE=true cargo build --offline --profile simdbg && CARGO_NET_OFFLINE=true cargo build --offline --profile simrel && (RUSTFLAGS='-C target-cpu=native --cfg verif_nat' CARGO_TARGET_DIR=/verif/target/nat CARGO_NET_OFFLINE=true cargo build --offline --profile simrel || true) && (CARGO_NET_OFFLINE=true cargo +nightly miri run --offline --release --quiet --target-dir /verif/target/miri -- miri-noop || true) && for t in s390x-unknown-linux-gnu i686-unknown-linux-gnu aarch64-unknown-linux-gnu; do (CARGO_NET_OFFLINE=true cargo +nightly miri run --offline --release --quiet --target $t --target-dir /verif/target/miri -- miri-noop || true); done",
  "hooks": {
    "guard": "verif-hooks",
    "enable": "cargo feature `verif-hooks` of the flussab crate (off by default); switched on by the path dependency in /verif/sim/Cargo.toml. It only adds DeferredWriter::verif_with_capacity.",
